@@ -31,8 +31,12 @@ class Out:
 
     def add(self, text, tag=None):
         for l in text.split('\n'):
+            t = tag
+            m = re.search(r'//\s*@props\s+([A-Z0-9 ]+)$', l)
+            if m and tag is not None and tag.get('kind') in ('prelude', 'item'):
+                t = dict(tag, props=m.group(1).split())     # env precondition tagged with the properties it serves
             self.lines.append(l)
-            self.tags.append(tag)
+            self.tags.append(t)
 
     def text(self):
         return '\n'.join(self.lines) + '\n'
@@ -515,6 +519,8 @@ def generate(unit, repo, probe=False):
                 gen_fn(out, unit, fs[0], sf, meta, probe)
             else:
                 out.add(key[1] + ' {', {'kind': 'prelude'})
+                for l in unit.implspec.get(key[1], []):
+                    out.add(l, {'kind': 'prelude'})
                 for f in fs:
                     sf = SrcFile.get(os.path.join(repo, 'src', f.file))
                     gen_fn(out, unit, f, sf, meta, probe)
